@@ -6,6 +6,8 @@ import VsbModel.Model.Rotate
 import VsbModel.Model.Dedup
 import VsbModel.Model.Metadata
 import VsbModel.Model.Verify
+import VsbModel.Model.Filter
+import VsbModel.Model.Walk
 
 /-!
 Line-protocol driver for the executable models: one request per line `<op> <json>`, one JSON
@@ -313,6 +315,99 @@ def opDuration (j : Json) : Except String Json := do
   | some n => pure (n : Json)
   | none => pure Json.null
 
+/-! ## filter -/
+open Vsb.Filter Vsb.Glob in
+/-- `filter`: {spec, paths:[..]} → {"error": kind} or {"results":[allow..]} -/
+def opFilter (j : Json) : Except String Json := do
+  let spec ← (← j.getObjVal? "spec").getStr?
+  let paths ← (← (← j.getObjVal? "paths").getArr?).toList.mapM (fun p => p.getStr?)
+  match parseSpec spec.toList with
+  | .error e => pure (Json.mkObj [("error", if e.startsWith "Invalid glob" then "glob" else "rule")])
+  | .ok rules =>
+    pure (Json.mkObj [("results", Json.arr (paths.map (fun p => Json.bool (check rules (pathBytes p)))).toArray),
+      ("nrules", rules.length)])
+
+/-! ## walk -/
+open Vsb.Walk in
+def parseErr (j : Json) : Except String (Option Err) :=
+  match j with
+  | .null => pure none
+  | .str "notFound" => pure (some .notFound)
+  | .str "typeChange" => pure (some .typeChange)
+  | .str _ => pure (some .other)
+  | _ => throw "err"
+
+def optField (j : Json) (k : String) : Json := (j.getObjVal? k).toOption.getD Json.null
+def boolField (j : Json) (k : String) (dflt : Bool) : Bool :=
+  match j.getObjVal? k with
+  | .ok (.bool b) => b
+  | _ => dflt
+
+open Vsb.Walk in
+partial def parseNode (j : Json) : Except String Node := do
+  let kind ← (← j.getObjVal? "kind").getStr?
+  match kind with
+  | "lstatFails" => do
+    let some e ← parseErr (optField j "err") | throw "lstatFails needs err"
+    pure (.lstatFails e)
+  | "file" => pure (.file (← parseErr (optField j "open")) (← parseErr (optField j "fstat"))
+      (boolField j "still_file" true) (boolField j "archive_ok" true))
+  | "symlink" => pure (.symlink (← parseErr (optField j "readlink")) (boolField j "add_ok" true))
+  | "special" => pure .special
+  | "dir" => do
+    let cs ← (← (← j.getObjVal? "children").getArr?).toList.mapM (fun c => do
+      let name ← (← c.getObjVal? "name").getStr?
+      let node ← parseNode (← c.getObjVal? "node")
+      pure (name, boolField c "utf8" true, boolField c "path_valid" true, node))
+    pure (.dir (← parseErr (optField j "opendir")) (← parseErr (optField j "readdir")) (boolField j "add_ok" true) cs)
+  | _ => throw "kind"
+
+open Vsb.Walk in
+def evJsonW : Vsb.Walk.Ev → Json
+  | .archDir p => Json.arr #["dir", "/" ++ "/".intercalate p]
+  | .archFile p => Json.arr #["file", "/" ++ "/".intercalate p]
+  | .archLink p => Json.arr #["link", "/" ++ "/".intercalate p]
+  | .error p => Json.arr #["error", "/" ++ "/".intercalate p]
+  | .warn p => Json.arr #["warn", "/" ++ "/".intercalate p]
+  | .before i => Json.arr #["before", i]
+  | .after i => Json.arr #["after", i]
+  | .hookFailed i => Json.arr #["hook-failed", i]
+  | .itemError i => Json.arr #["item-error", i]
+
+open Vsb.Walk Vsb.Filter Vsb.Glob in
+/-- `walk`: {items:[{before,after,resolved:[..]|null,path_valid,filter,node}], parents:{"/a/b":"lstatErr"|..}, finish_ok} -/
+def opWalk (j : Json) : Except String Json := do
+  let parents := optField j "parents"
+  let parentOf : Path → Parent := fun p =>
+    match parents.getObjVal? ("/" ++ "/".intercalate p) with
+    | .ok (.str "lstatErr") => .lstatErr
+    | .ok (.str "notDir") => .notDir
+    | .ok (.str "addFails") => .addFails
+    | _ => .ok
+  let hook : Json → Hook := fun h => match h with
+    | .str "succeeds" => .succeeds
+    | .str "fails" => .fails
+    | _ => .absent
+  let items ← (← (← j.getObjVal? "items").getArr?).toList.mapM (fun it => do
+    let resolved ← match optField it "resolved" with
+      | .null => pure none
+      | r => do pure (some (← (← r.getArr?).toList.mapM (fun c => c.getStr?)))
+    let spec := match optField it "filter" with
+      | .str s => s
+      | _ => ""
+    let rules ← match parseSpec spec.toList with
+      | .ok r => pure r
+      | .error e => throw e
+    let node ← match optField it "node" with
+      | .null => pure Node.special
+      | n => parseNode n
+    pure ({ before := hook (optField it "before"), after := hook (optField it "after"), resolved := resolved,
+            pathValid := boolField it "path_valid" true, node := node,
+            allow := fun rel => check rules (pathBytes ("/".intercalate rel)) } : Item))
+  let (evs, res) := run parentOf items (boolField j "finish_ok" true)
+  pure (Json.mkObj [("evs", Json.arr (evs.map evJsonW).toArray),
+    ("result", match res with | some true => "ok" | some false => "errors" | none => "aborted")])
+
 def dispatch (op : String) (j : Json) : Except String Json :=
   match op with
   | "split" => opSplit j
@@ -322,6 +417,8 @@ def dispatch (op : String) (j : Json) : Except String Json :=
   | "list" => opList j
   | "rotate" => opRotate j
   | "dedup" => opDedup j
+  | "filter" => opFilter j
+  | "walk" => opWalk j
   | "verify" => opVerify j
   | "age" => opAge j
   | "duration" => opDuration j
